@@ -81,6 +81,7 @@ from __future__ import annotations
 import ast
 
 from ..dataflow import defs_of, fragments, origins
+from ..facts import facts_at
 from ..model import ancestors, dotted, enclosing_stmt, parent, unparse, walk_no_nested
 from ..selftest import V
 from ..shell import check_quoting
@@ -683,14 +684,32 @@ def r2(ctx):
     ctx.ob("R2", "environment = every EnvVarRequirement entry, evaluated", comp_ok, func=f, node=call, instance="execute:env-built", message=msg)
     # defaults
     want = {"HOME": "output_directory", "TMPDIR": "tmp_directory"}
-    stores = {}
+    stores = {}  # key -> [(cfg node, value expression, store is conditional by construction)]
     for n in g.nodes.values():
-        if n.kind == "stmt" and isinstance(n.ast, ast.Assign):
+        if n.kind != "stmt":
+            continue
+        if isinstance(n.ast, ast.Assign):
             for t in n.ast.targets:
                 if isinstance(t, ast.Subscript) and isinstance(t.value, ast.Name) and t.value.id == E and isinstance(t.slice, ast.Constant):
-                    stores.setdefault(t.slice.value, []).append(n)
+                    stores.setdefault(t.slice.value, []).append((n, n.ast.value, False))
+        elif isinstance(n.ast, ast.Expr) and isinstance(n.ast.value, ast.Call):
+            c = n.ast.value
+            # `E.setdefault('HOME', v)` stores only when the key is absent
+            if (isinstance(c.func, ast.Attribute) and c.func.attr == "setdefault" and isinstance(c.func.value, ast.Name) and c.func.value.id == E
+                    and len(c.args) == 2 and not c.keywords and isinstance(c.args[0], ast.Constant)):
+                stores.setdefault(c.args[0].value, []).append((n, c.args[1], True))
+
+    def _absent_fact(nid, key):
+        """`key in E` is known to be false on every path reaching node nid (however the test is spelled)."""
+        for a, truth in facts_at(g, nid):
+            if (not truth and isinstance(a, ast.Compare) and len(a.ops) == 1 and isinstance(a.ops[0], ast.In)
+                    and isinstance(a.left, ast.Constant) and a.left.value == key
+                    and isinstance(a.comparators[0], ast.Name) and a.comparators[0].id == E):
+                return True
+        return False
+
     for key, attr in want.items():
-        ns = stores.get(key, [])
+        ns = [n for n, _, _ in stores.get(key, [])]
         ok = bool(ns)
         msg = f"{key} is not defaulted in the tool environment (CWL: HOME = output directory, TMPDIR = temporary directory)"
         if not ns and merged.get(key):
@@ -700,23 +719,9 @@ def r2(ctx):
                     ok, msg = False, f"`{{...EnvVarRequirement...}} | {{{key!r}: {unparse(v_)}}}` overwrites {key} even when EnvVarRequirement sets it (the right operand of `|` wins)"
                 elif not unparse(v_).endswith("." + attr):
                     ok, msg = False, f"{key} defaults to `{unparse(v_)}` instead of job.{attr}"
-        for n in ns:
-            val = unparse(n.ast.value)
-            guards = [
-                t
-                for t in g.nodes.values()
-                if t.kind == "test"
-                and isinstance(t.ast, ast.Compare)
-                and len(t.ast.ops) == 1
-                and isinstance(t.ast.ops[0], ast.NotIn)
-                and isinstance(t.ast.left, ast.Constant)
-                and t.ast.left.value == key
-                and unparse(t.ast.comparators[0]) == E
-            ]
-            guarded = any(
-                g.dominates(t.id, n.id) and n.id not in g.reach([b for b, k in g.succ[t.id] if k == "f"], avoid=[t.id], include_src=True)
-                for t in guards
-            )
+        for n, v_, conditional in stores.get(key, []):
+            val = unparse(v_)
+            guarded = conditional or _absent_fact(n.id, key)
             if not guarded:
                 ok, msg = False, f"`{E}[{key!r}]` is overwritten even when EnvVarRequirement sets {key}"
             elif not val.endswith("." + attr):
@@ -1898,6 +1903,18 @@ VARIANTS = [
     V("benign: TMPDIR default before HOME default", FILE, f"{CMD}.execute",
       "if 'HOME' not in parsed_env:\n        parsed_env['HOME'] = job.output_directory\n    if 'TMPDIR' not in parsed_env:\n        parsed_env['TMPDIR'] = job.tmp_directory",
       "if 'TMPDIR' not in parsed_env:\n        parsed_env['TMPDIR'] = job.tmp_directory\n    if 'HOME' not in parsed_env:\n        parsed_env['HOME'] = job.output_directory", None),
+    # fx6: the guard of the HOME/TMPDIR defaults is a branch fact (`'K' in env` is false at the store), not a spelling
+    V("benign: HOME guard spelled `not ('HOME' in env)` (battery notform)", FILE, f"{CMD}.execute", "if 'HOME' not in parsed_env:", "if not 'HOME' in parsed_env:", None),
+    V("benign: TMPDIR guard spelled `not ('TMPDIR' in env)` (battery notform)", FILE, f"{CMD}.execute", "if 'TMPDIR' not in parsed_env:", "if not 'TMPDIR' in parsed_env:", None),
+    V("benign: HOME default on the else branch of a positive test", FILE, f"{CMD}.execute", "if 'HOME' not in parsed_env:\n        parsed_env['HOME'] = job.output_directory",
+      "if 'HOME' in parsed_env:\n        pass\n    else:\n        parsed_env['HOME'] = job.output_directory", None),
+    V("benign: HOME default via setdefault", FILE, f"{CMD}.execute", "if 'HOME' not in parsed_env:\n        parsed_env['HOME'] = job.output_directory",
+      "parsed_env.setdefault('HOME', job.output_directory)", None),
+    V("env: HOME store on the branch where HOME is set (guard polarity inverted)", FILE, f"{CMD}.execute", "if 'HOME' not in parsed_env:", "if 'HOME' in parsed_env:", "R2"),
+    V("env: TMPDIR stored when `not ('TMPDIR' not in env)`", FILE, f"{CMD}.execute", "if 'TMPDIR' not in parsed_env:", "if not 'TMPDIR' not in parsed_env:", "R2"),
+    V("env: setdefault of HOME with the tmp directory", FILE, f"{CMD}.execute", "if 'HOME' not in parsed_env:\n        parsed_env['HOME'] = job.output_directory",
+      "parsed_env.setdefault('HOME', job.tmp_directory)", "R2"),
+    V("env: HOME guard weakened by a disjunct (`'HOME' not in env or True`)", FILE, f"{CMD}.execute", "if 'HOME' not in parsed_env:", "if 'HOME' not in parsed_env or self.environment:", "R2"),
     V("benign: workdir through a temporary", FILE, f"{CMD}.execute", "result, exit_code = await connector.run(locations[0], cmd, environment=parsed_env, workdir=job.output_directory",
       "outdir = job.output_directory\n    result, exit_code = await connector.run(locations[0], cmd, environment=parsed_env, workdir=outdir", None),
     V("benign: create_command keyword call in local connector", LFILE, f"{LOCAL}.run", "utils.create_command(self.__class__.__name__, command, environment, workdir, stdin, stdout, stderr)",
